@@ -656,6 +656,31 @@ func TestC12(t *testing.T) {
 			R.Violation(f.key, f.detail)
 		}
 	}
+	// the report command on an input without any result: today it refuses the
+	// input before rendering (recorded); if it ever renders, the rendering has
+	// to show a zero count in every bucket.
+	for i, md := range [][2]string{{"hist[0,1ms]", ""}, {"hist", "[0,1ms]"}, {"json", "[0,1ms]"}} {
+		out, err := c12Report(R, dir, len(lists)+i, md[0], md[1], nil)
+		R.Eval(1)
+		if err != nil {
+			R.Set("report_on_input_without_results:"+md[0]+" "+md[1], "error: "+strings.ReplaceAll(err.Error(), dir, "<tmp>"))
+			if strings.HasPrefix(err.Error(), "panic") {
+				R.Violation("report:no-results:panic", map[string]any{"type": md[0], "buckets": md[1], "what": err.Error()})
+			}
+			continue
+		}
+		R.Set("report_on_input_without_results:"+md[0]+" "+md[1], "rendered")
+		wantB, wantC := []time.Duration{0, time.Millisecond}, []uint64{0, 0}
+		var bad []c12Bad
+		if md[0] == "json" {
+			bad = c12CheckMetricsJSON("report:no-results", []byte(out), wantB, wantC)
+		} else {
+			bad = c12CheckText("report:no-results", out, wantB, wantC)
+		}
+		for _, b := range bad {
+			R.Violation(b.key, map[string]any{"type": md[0], "buckets": md[1], "what": b.msg})
+		}
+	}
 	R.State(len(states))
 	R.Finish(t)
 }
